@@ -379,10 +379,12 @@ func runC16(c *Ctx) {
 	if push := c.Anchor("O4", pkgSU, "PriorityQueue", "Push"); push != nil {
 		lessM := p.Func(pkgSU, "priorityQueue", "Less")
 		n := 0
-		for _, in := range instrsIn(push, func(in ssa.Instruction) bool {
+		// (the overflow handling may live in a helper of Push)
+		for _, dh := range p.deepFind(push, func(in ssa.Instruction) bool {
 			cc, ok := in.(ssa.CallInstruction)
 			return ok && calleeOf(cc) != nil && funcPkgPath(calleeOf(cc)) == "container/heap" && calleeOf(cc).Name() == "Remove"
-		}) {
+		}, 2) {
+			in := dh.In
 			n++
 			idx := in.(ssa.CallInstruction).Common().Args[1]
 			t := termOf(idx)
@@ -410,7 +412,7 @@ func runC16(c *Ctx) {
 			c.Check(byCmp, "O4", "PROV", funcKey(push)+": the item evicted from a full heap is chosen by comparison", instrPos(in), t.String(), "the index handed to heap.Remove ("+t.String()+") is a position, not the result of comparing items: a binary heap orders an item only relative to its ancestors, so a fixed slot can hold a better item than one that is kept, and a higher-priority or older job is dropped while a worse one stays to be scheduled")
 			// RANGE: the scan covers every leaf
 			if byCmp && lessM != nil {
-				scanFn := push
+				scanFn := in.Parent()
 				t.contains(func(x *Term) bool {
 					if x.Op == "call" && x.Fn != nil && !sameFunc(x.Fn, lessM) && len(x.Fn.Blocks) > 0 && hasModPrefix(x.Fn) {
 						scanFn = x.Fn
